@@ -787,13 +787,17 @@ impl<F: Read + Write + Seek> Package<F> {
             not_found!("Table {:?} does not exist", table_name);
         }
         let stream_name = self.tables.get(table_name).unwrap().stream_name();
-        if self.comp().exists(&stream_name) {
-            self.comp_mut().remove_stream(&stream_name)?;
+        // Delete the table's rows first, so that their strings are released
+        // from the string pool.
+        self.delete_rows(Delete::from(table_name))?;
+        // (A package that was not created by this library may lack the
+        // optional _Validation table.)
+        if self.tables.contains_key(VALIDATION_TABLE_NAME) {
+            self.delete_rows(
+                Delete::from(VALIDATION_TABLE_NAME)
+                    .with(Expr::col("Table").eq(Expr::string(table_name))),
+            )?;
         }
-        self.delete_rows(
-            Delete::from(VALIDATION_TABLE_NAME)
-                .with(Expr::col("Table").eq(Expr::string(table_name))),
-        )?;
         self.delete_rows(
             Delete::from(COLUMNS_TABLE_NAME)
                 .with(Expr::col("Table").eq(Expr::string(table_name))),
@@ -802,6 +806,9 @@ impl<F: Read + Write + Seek> Package<F> {
             Delete::from(TABLES_TABLE_NAME)
                 .with(Expr::col("Name").eq(Expr::string(table_name))),
         )?;
+        if self.comp().exists(&stream_name) {
+            self.comp_mut().remove_stream(&stream_name)?;
+        }
         self.tables.remove(table_name);
         Ok(())
     }
